@@ -112,6 +112,10 @@ pub fn lex(args: &Value) -> Outcome {
                 (None, Err(_)) => {},
                 (None, Ok(g)) if !matches!(g, GqlValue::Number(_)) => {},      // e.g. `e1` is an enum value, not a number
                 (e, g) => note(&mut bad, format!("number {:?}: reference lexer says {:?}, parser gave {:?}", w, e, g)) } },
+        "keywords" => for w in ["true1", "nullx", "falsey", "trueValue", "null_", "false0"] {
+            // a Name that merely starts with true / false / null is ONE enum value (longest match), not a keyword followed by something
+            n += 1; nontrivial += 1;
+            match arg_of(&format!("{{ f(a: {}) }}", w)) { Ok(GqlValue::Enum(e)) if e.as_str() == w => {}, g => note(&mut bad, format!("enum value {}: parser gave {:?}", w, g)) } },
         _ => for (doc, ok) in DOCS { if args["skip_fragment_named_on"] == true && *doc == "{ ...on }" { continue; } n += 1; nontrivial += 1; let r = parse_query(doc).is_ok() || async_graphql_parser::parse_schema(doc).is_ok();
             if r != *ok { note(&mut bad, format!("document {:?}: expected {}, parser {}", doc, if *ok { "accept" } else { "reject" }, if r { "accepts" } else { "rejects" })); } },
     }
@@ -130,4 +134,5 @@ pub fn inputs(_seed: u64, open: &[String]) -> impl Iterator<Item = Value> {
     let has = |id: &str| open.iter().any(|x| x == id);
     vec![json!({"kind": "docs", "skip_fragment_named_on": has("C13-fragment-spread-named-on")}), json!({"kind": "strings"}), json!({"kind": "unicode"}),
          json!({"kind": "numbers", "skip_negative_zero": has("C13-negative-zero-is-a-float"), "skip_inexact_floats": has("C13-float-literals-not-correctly-rounded")}), json!({"kind": "blocks"}), json!({"kind": "block_lines"}), json!({"kind": "nesting"})].into_iter()
+        .chain(if has("C13-enum-names-with-keyword-prefix") { vec![] } else { vec![json!({"kind": "keywords"})] })
 }
